@@ -91,7 +91,7 @@ class C17(Check):
                   'about the model; that the C++ computes what the model computes is validated by correspondence only (no clause of '
                   'the property is left unproved on the model side). RFC 4231 is a set of test vectors for RFC 2104: two of them are '
                   'Examples, the property is the RFC 2104 definition. On a tree where nearly every case crashes or hangs a stream is '
-                  'abandoned after 150 crashed cases (or 200 s of watchdog timeouts over the run).')
+                  'abandoned after 150 crashed cases (or 200 s of wall time in crashing or hanging slices over the run).')
     rule = ('cases = histories of update/finalize/reset/hash/hmac on one hasher; message lengths sweep the padding '
             'boundaries (0..300), 2- and 3-way chunkings, key lengths 0..200 across the block size and long keys (255..257, 1000, '
             '1023..1026, 2000, 4095..4097, random 1025..4096); a case is '
@@ -298,10 +298,11 @@ class C17(Check):
     def run_spec(self, cases, tag='spec'):
         return self._run_slow(cases, tag, self.spec_args) if self._slow(cases) else self._run_pure(cases, tag, self.spec_args)
 
-    # Give up early on a tree where (nearly) every case crashes or hangs: a stream is run in slices of 50 cases (5 for the first slice and once a watchdog has fired); after
-    # 150 crashed cases in one stream, or 200 s spent in watchdog timeouts over the whole run, the remaining cases of the
-    # stream are not run (vf drops them and reports what it has; the first case of every stream is always run).
-    CRASH_CAP, HANG_BUDGET_S = 150, 200
+    # Give up early on a tree where (nearly) every case crashes or hangs: a stream is run in slices of 50 cases (5 for the
+    # first slice and once a slice has crashed); after 150 crashed cases in one stream, or 200 s of wall time spent in
+    # slices that contained a crash or a watchdog timeout (over the whole run), the remaining cases of the stream are not
+    # run (vf drops them and reports what it has; the first case of every stream is always run).
+    CRASH_CAP, BAD_BUDGET_S = 150, 200
 
     @staticmethod
     def _case_timeout(c):
@@ -318,29 +319,30 @@ class C17(Check):
         return 10 + n // 4000000
 
     def run_impl(self, cases, tag='impl'):
+        import time
         n = len(cases)
-        res, crashes, ncr = [['! notrun'] for _ in range(n)], {}, 0
-        hung = getattr(self, '_hung_s', 0.0)
+        res, crashes = [['! notrun'] for _ in range(n)], {}
+        bad = getattr(self, '_bad_s', 0.0)
         i = 0
         while i < n:
-            spent = ncr >= self.CRASH_CAP or hung >= self.HANG_BUDGET_S
+            spent = len(crashes) >= self.CRASH_CAP or bad >= self.BAD_BUDGET_S
             if spent and i > 0:
                 break
             to = self._case_timeout(cases[i])
             j = i + 1
-            width = 50 if (hung == 0 and i > 0) else 5  # a small first slice; small slices once a watchdog has fired
+            width = 50 if (bad == 0 and i > 0) else 5
             while not spent and to == 10 and j < n and j - i < width and self._case_timeout(cases[j]) == 10:
                 j += 1
             self.per_case_timeout = to
+            t0 = time.time()
             r, cr = Check.run_impl(self, cases[i:j], tag)
             res[i:j] = r
             for k, v in cr.items():
                 crashes[i + k] = v
-                ncr += 1
-                if v[0] == 'timeout':
-                    hung += to
+            if cr:
+                bad += time.time() - t0
             i = j
-        self._hung_s = hung
+        self._bad_s = bad
         return res, crashes
 
     def judge(self, cases, impl_obs, spec_obs):
@@ -405,6 +407,8 @@ class C17(Check):
             want.append((hashlib.sha256(m).hexdigest(), pyhmac.new(k, m, hashlib.sha256).hexdigest()))
         impl, _ = self.run_impl(cases, tag='impl_py')
         for c, o, w in zip(cases, impl, want):
+            if o == ['! notrun']:          # run_impl gave up on a tree where everything crashes or hangs
+                continue
             got = tuple(l.split(' ')[0] for l in o[:2])
             if got != w:
                 j = 0 if got[:1] != w[:1] else 1          # the call that differs, alone (hash and hmac are static: no history)
